@@ -308,14 +308,21 @@ fn process_event(
 		metadata.insert("notify-backend".to_string(), vec![src.to_string()]);
 	}
 
-	let ev = Event { tags, metadata };
+	#[cfg_attr(not(watchexec_verif), allow(unused_mut))]
+	let mut ev = Event { tags, metadata };
+	#[cfg(watchexec_verif)]
+	let verif_id = verif::stamp(&mut ev);
 
 	trace!(event = ?ev, "processed notify event into watchexec event");
 	n_events
 		.try_send(ev, Priority::Normal)
-		.map_err(|err| RuntimeError::EventChannelTrySend {
-			ctx: "fs watcher",
-			err,
+		.map_err(|err| {
+			#[cfg(watchexec_verif)]
+			watchexec_supervisor::verif::emit("fs_event_lost", verif_id, 0);
+			RuntimeError::EventChannelTrySend {
+				ctx: "fs watcher",
+				err,
+			}
 		})?;
 
 	Ok(())
@@ -350,5 +357,27 @@ pub mod verif {
 
 	pub fn factory() -> Option<Factory> {
 		FACTORY.with(|f| f.borrow().clone())
+	}
+
+	static STAMP: std::sync::atomic::AtomicBool = std::sync::atomic::AtomicBool::new(false);
+	static NEXT_ID: std::sync::atomic::AtomicUsize = std::sync::atomic::AtomicUsize::new(1);
+
+	/// When on, every event made from a watcher notification gets a sequence number (metadata
+	/// `verif-id`, numbering restarts at 1) and a trace point just before it is sent to the queue.
+	pub fn stamp_events(on: bool) {
+		use std::sync::atomic::Ordering::SeqCst;
+		NEXT_ID.store(1, SeqCst);
+		STAMP.store(on, SeqCst);
+	}
+
+	pub(super) fn stamp(event: &mut watchexec_events::Event) -> usize {
+		use std::sync::atomic::Ordering::SeqCst;
+		if !STAMP.load(SeqCst) {
+			return 0;
+		}
+		let id = NEXT_ID.fetch_add(1, SeqCst);
+		event.metadata.insert("verif-id".into(), vec![id.to_string()]);
+		watchexec_supervisor::verif::emit("fs_event", id, 0);
+		id
 	}
 }
